@@ -2,6 +2,7 @@ package object
 
 import (
 	"fmt"
+	"math"
 	"math/bits"
 	"runtime"
 	"runtime/debug"
@@ -25,6 +26,9 @@ func SizeOk(n int) (bool, int64) {
 		return true, 0
 	}
 	free := FreeMemory()
+	if n < 0 || int64(n) > math.MaxInt64/ObjectSize { // the size in bytes itself would overflow.
+		return false, free
+	}
 	return ((free >= 0) && ((int64(n) * ObjectSize) < free)), free
 }
 
@@ -36,6 +40,25 @@ func MustBeOk(n int) {
 	if ok, free := SizeOk(n); !ok {
 		panic(fmt.Sprintf("would exceed memory requesting %d objects, %d free", n, free))
 	}
+}
+
+// RepeatLen returns n*count, the length of n elements (Objects, or bytes when the bytes flag is set)
+// repeated count times, after checking it against the memory budget.
+// A product that does not even fit an int is refused like any other oversized request.
+func RepeatLen(n int, count int64, bytes bool) int {
+	if n == 0 || count == 0 {
+		return 0
+	}
+	if count > int64(math.MaxInt/n) {
+		MustBeOk(math.MaxInt) // panics: can't possibly fit.
+	}
+	total := n * int(count)
+	if bytes {
+		MustBeOk(total / ObjectSize)
+	} else {
+		MustBeOk(total)
+	}
+	return total
 }
 
 // Memory checking version of make(). To avoid OOM kills / fatal errors.
